@@ -330,6 +330,11 @@ def gen_class(rng, depth, *, naming=True, variant_tag=None, allow=None, simple=F
         if cands and r() < 0.6:
             f = rng.choice(cands)
             post_init = ('raise_if', f.name, 7 if f.ty.k == 'int' else 'abc')
+        elif not INIT_FALSE_IMPLIES_EXCLUDE and r() < 0.5:
+            # a hook deciding by the record of explicitly given fields (not in round-trip workloads: the written form gives every field)
+            cands = [f for f in fields if f.init and f.has_default() and not f.exclude]
+            if cands:
+                post_init = ('raise_if_set', rng.choice(cands).name)
     spec = ClassM(f"K{next(_serial)}", fields, opts, post_init)
     spec.tagval = variant_tag[1] if variant_tag else None
     return spec
